@@ -88,7 +88,7 @@ def cases(draw, name, tier):
     if name != "iter_sentinel":
         for s in case["srcs"]:
             s["fl"] = draw(st.sampled_from(["agen", "agen", "list", "iter", "seq", "reiter", "areiter", "aproxy", "sgen",
-                                             "tuple", "range", "iter_noasync", "iter_hint0"]))
+                                             "tuple", "range", "iter_noasync", "iter_hint0", "iter_awaitable", "aclass_awaitable"]))
             s["falsy"] = draw(st.integers(0, 4)) == 0  # (class-based flavours only: the object is falsy)
             # (class-based flavours only) value equality, or __eq__ without __hash__ as for a plain dataclass
             s["eqsrc"] = draw(st.sampled_from([False, False, False, False, True, "unhashable"]))
